@@ -133,3 +133,88 @@ def dict_literal_keys(node) -> dict | None:
     if isinstance(node, ast.Call) and call_name(node) == "dict" and not node.args:
         return {k.arg: k.value for k in node.keywords if k.arg}
     return None
+
+
+def bind_call(call: ast.Call, funcdef) -> dict:
+    """Map parameter names of funcdef to the argument expressions of call.
+    Starred/double-starred arguments are recorded under '*' / '**'."""
+    a = funcdef.args
+    pos = [x.arg for x in a.posonlyargs + a.args]
+    out = {}
+    i = 0
+    for arg in call.args:
+        if isinstance(arg, ast.Starred):
+            out["*"] = arg.value
+            break
+        if i < len(pos):
+            out[pos[i]] = arg
+        elif a.vararg:
+            out.setdefault("*" + a.vararg.arg, []).append(arg)
+        i += 1
+    for k in call.keywords:
+        if k.arg is None:
+            out["**"] = k.value
+        else:
+            out[k.arg] = k.value
+    return out
+
+
+def is_unmodified_param(func, at, expr, pname: str) -> bool:
+    """expr, evaluated at statement `at` of func, is exactly the parameter `pname`."""
+    return isinstance(expr, ast.Name) and expr.id == pname and reaching_of(func).is_param(at, pname)
+
+
+def try_of(node, part: str | None = None):
+    """Innermost enclosing ast.Try of node (optionally requiring node to be in `part`:
+    'body' | 'handlers' | 'finalbody' | 'orelse')."""
+    child = node
+    n = getattr(node, "_parent", None)
+    while n is not None and not isinstance(n, (ast.FunctionDef, ast.AsyncFunctionDef, ast.Lambda)):
+        if isinstance(n, ast.Try):
+            for p in ("body", "handlers", "orelse", "finalbody"):
+                if any(child is x for x in getattr(n, p)):
+                    if part is None or p == part:
+                        return n, p
+        child = n
+        n = getattr(n, "_parent", None)
+    return None, None
+
+
+def tuple_len(node):
+    if isinstance(node, ast.Tuple):
+        return len(node.elts)
+    return None
+
+
+def resolve(expr, at, func=None, steps: int = 3):
+    """Follow a plain local name to the value of its unique reaching assignment
+    (also for calls and fresh containers, which `inline` leaves alone)."""
+    func = func or enclosing_function(at)
+    rd = reaching_of(func)
+    cur, where = expr, at
+    for _ in range(steps):
+        if not isinstance(cur, ast.Name):
+            break
+        uv = rd.unique_value(where, cur.id)
+        if uv is None:
+            break
+        cur, where = uv
+    return cur
+
+
+def derives_from(func, at, expr, pname: str, depth: int = 6) -> bool:
+    """Every way `expr` can be computed at `at` mentions parameter `pname`: expr names the
+    (unmodified) parameter, or contains a local all of whose reaching definitions do."""
+    if depth <= 0:
+        return False
+    rd = reaching_of(func)
+    for n in ast.walk(expr):
+        if isinstance(n, ast.Name) and isinstance(n.ctx, ast.Load):
+            defs = rd.reaching(at, n.id)
+            if not defs:
+                continue
+            if n.id == pname and all(v == "param" for _, v, _ in defs):
+                return True
+            if all(isinstance(v, ast.AST) and derives_from(func, st, v, pname, depth - 1) for _, v, st in defs):
+                return True
+    return False
